@@ -46,7 +46,7 @@ if HR is not None:
     for fn, ids in HR.REGISTRY:
         reg(fn, *ids)
 
-for _modname in ('rules_hir2', 'rules_hir3', 'rules_hir4', 'rules_hir5', 'rules_hir6', 'rules_hir7', 'rules_hir8', 'rules_mir'):
+for _modname in ('rules_hir2', 'rules_hir3', 'rules_hir4', 'rules_hir5', 'rules_hir6', 'rules_hir7', 'rules_hir8', 'rules_hir9', 'rules_mir'):
     try:
         _m = __import__('vflib.' + _modname, fromlist=['REGISTRY'])
     except ImportError:
@@ -84,7 +84,7 @@ PROPS = {
             ('BODY-KEYS', None), ('NO-FALLBACK', None), ('SAME-OP', None), ('QUERY-TEXT', None)],
     'C06': [('SET-SCOPE', None), ('ID-INDEX', None), ('CACHE-KEY', None), ('TYPENAME-SAME-TYPE', None), ('ROOTS-AGREE', None), ('LOOKUP-CHECKED', None), ('ERR-PROPAGATED', inst_has('query::', 'graphql_client_codegen::', 'GeneratedModule', 'codegen::')),
             ('VALIDATE-ORDER', None), ('KIND-MATRIX', None), ('COND-MATRIX', None), ('TYPENAME-MATRIX', None), ('ROOTS', None), ('UNION-FIELDS', None)],
-    'C07': [('ONEOF-VALUE', None), ('STORE-TOTAL', None), ('VARIANTS-EXHAUSTIVE', None), ('CACHE-KEY', None), ('SCALAR-BUILTIN', None), ('SIB-1', None), ('SIB-2', None), ('SIB-3', None), ('TYPES-3', None), ('JSON-SHAPES', None), ('EXT-DISPATCH', None),
+    'C07': [('INTRO-KEYS', None), ('INTRO-NULLABLE', None), ('INTRO-KIND-TABLE', None), ('ONEOF-VALUE', None), ('STORE-TOTAL', None), ('VARIANTS-EXHAUSTIVE', None), ('CACHE-KEY', None), ('SCALAR-BUILTIN', None), ('SIB-1', None), ('SIB-2', None), ('SIB-3', None), ('TYPES-3', None), ('JSON-SHAPES', None), ('EXT-DISPATCH', None),
             ('ROOTS-AGREE', None), ('EXTENSIONS', None), ('ID-ORDER', None), ('INGEST-ALL', None), ('ENUM-VALUES', None)],
     'C08': [('STATE-INVENTORY', None), ('CACHE-ACCESS', None), ('CACHE-KEY', None), ('LOCK-DISCIPLINE', None), ('NO-AMBIENT', None), ('ORDERED', None)],
     'C09': [('ENUM-ORDER', None), ('EXTERN-FILTER', None), ('ATTR-PLUMB', inst_has('/independent')), ('SCAN-GUARD', None), ('DERIVE-KEEP', None), ('WIRE-1', inst_has('typename-variant', 'OPERATION_NAME')), ('BODY-CONST', None), ('NORM-ID', None), ('GRAMMAR', None), ('OPT-1', None), ('OPT-2', None), ('DERIVE-ONLY', None)],
